@@ -118,7 +118,7 @@ func c03Roots(c *core.Ctx, ps *pduSet) ([]*ssa.Function, int) {
 func runC03(c *core.Ctx) {
 	ps := loadPDUs(c)
 	c.MinInstances("C03-PANIC", 150)
-	c.MinInstances("C03-LOOP", 15)
+	c.MinInstances("C03-LOOP", 12)
 	c.MinInstances("C03-ALLOC", 10)
 	c.MinInstances("C03-TRUNC", MinPDUs+40)
 	c.Trust("Go's run-time panic conditions for index/slice/make/divide", "strings.Index / bytes.IndexByte return -1 or an offset with r+len(needle) <= len(haystack)",
@@ -536,6 +536,26 @@ func allocBounded(c *core.Ctx, p *prover.F, fn *ssa.Function, b *ssa.BasicBlock,
 			continue
 		}
 		if proveBoundedByLens(p, b, a) {
+			continue
+		}
+		// bounded by the number of unread octets of a buffer: a <= buf.Len() for a (*bytes.Buffer).Len() / Reader.Remaining() result
+		boundedByAvail := false
+		for _, bb := range fn.Blocks {
+			for _, ins := range bb.Instrs {
+				call, ok := ins.(*ssa.Call)
+				if !ok || !bb.Dominates(b) {
+					continue
+				}
+				n := calleeName(call)
+				if n != "bytes.(Buffer).Len" && !strings.HasSuffix(n, "packet.(Reader).Remaining") {
+					continue
+				}
+				if ok, _ := p.Prove(b, p.LinOf(call).Add(prover.Atom(a), -1), nil); ok {
+					boundedByAvail = true
+				}
+			}
+		}
+		if boundedByAvail {
 			continue
 		}
 		if prm, ok := v.(*ssa.Parameter); ok && depth < 3 {
